@@ -9,14 +9,14 @@ package main
 import (
 	"bytes"
 	"context"
-	"io"
-	"net/http"
 	"crypto/ed25519"
 	"crypto/sha256"
 	"encoding/base64"
 	"encoding/json"
 	"fmt"
+	"io"
 	"math/rand"
+	"net/http"
 	"sort"
 	"strings"
 	"time"
@@ -133,9 +133,11 @@ func c18ExerciseEvent(ev gmsl.PDU, sk ed25519.PrivateKey) {
 }
 
 // hostile values for event fields
-var c18RoomIDs = []string{"!room:example.org", "!a:b c", "!:", "!a:", "!abc", "!", "", ":", "!:x", "#room:example.org", "!" + strings.Repeat("a", 300) + ":x", "!r:[::1]:80", "!r:exa mple", "!\x00:x", "!31hneApxJ_1o-63DmFrpeqnkFfWppnzWso1JvH3ogLM", "room", "!a:b:c:d"}
-var c18Users = []string{"@alice:example.org", "@:", "@", "", "@a", "alice", "@a:", "@:b", "@a:b:c", "@" + strings.Repeat("u", 260) + ":x", "@A:b", "@a:b c", "@a:[::1]", "@\xff:x", "#a:b", "@a\x00:b"}
-var c18StateKeys = []interface{}{"", "@alice:example.org", "@", "@x", "x", nil, 5, "@bob:other.org", strings.Repeat("k", 300), "éé"}
+var c18RoomIDs = []string{"!room:example.org", "!a:b c", "!:", "!a:", "!abc", "!", "", ":", "!:x", "#room:example.org", "!" + strings.Repeat("a", 300) + ":x", "!r:[::1]:80", "!r:exa mple", "!\x00:x", "!31hneApxJ_1o-63DmFrpeqnkFfWppnzWso1JvH3ogLM", "room", "!a:b:c:d",
+	"!" + strings.Repeat("ä", 130) + ":x", "!" + strings.Repeat("ä", 300) + ":x", "!" + strings.Repeat("😀", 70) + ":example.org"}
+var c18Users = []string{"@alice:example.org", "@:", "@", "", "@a", "alice", "@a:", "@:b", "@a:b:c", "@" + strings.Repeat("u", 260) + ":x", "@A:b", "@a:b c", "@a:[::1]", "@\xff:x", "#a:b", "@a\x00:b",
+	"@" + strings.Repeat("ü", 130) + ":x", "@" + strings.Repeat("ü", 300) + ":x"}
+var c18StateKeys = []interface{}{"", "@alice:example.org", "@", "@x", "x", nil, 5, "@bob:other.org", strings.Repeat("k", 300), "éé", strings.Repeat("é", 200), strings.Repeat("é", 300)}
 var c18Numbers = []interface{}{0, 1, -1, 50, 100, 9007199254740991, 9007199254740992, -9007199254740991, json.Number("9223372036854775807"), json.Number("9223372036854775808"), json.Number("1e400"), json.Number("-1e400"), 1.5, "100", " 7 ", "x", nil, true, []int{1}, map[string]int{"a": 1}, json.Number("1E2"), json.Number("-0")}
 
 func c18PickAny(r *rand.Rand, l []interface{}) interface{} { return l[r.Intn(len(l))] }
@@ -208,7 +210,7 @@ func c18HostileContent(r *rand.Rand, typ string) map[string]interface{} {
 }
 
 var c18Types = []string{"m.room.create", "m.room.member", "m.room.power_levels", "m.room.join_rules", "m.room.third_party_invite",
-	"m.room.history_visibility", "m.room.redaction", "m.room.aliases", "m.room.topic", "m.room.message", "", "m.room.name", strings.Repeat("t", 300)}
+	"m.room.history_visibility", "m.room.redaction", "m.room.aliases", "m.room.topic", "m.room.message", "", "m.room.name", strings.Repeat("t", 300), strings.Repeat("ť", 200)}
 
 func c18HostileEvent(r *rand.Rand, ver gmsl.RoomVersion) []byte {
 	typ := c18Types[r.Intn(len(c18Types))]
@@ -349,12 +351,22 @@ func init() {
 		// the same event with a correct content hash is tried too, so that it comes back unredacted
 		for _, j := range [][]byte{args[1], c18Rehash(args[1])} {
 			ev, err := verImpl.NewEventFromUntrustedJSON(j)
+			if ve, ok := err.(gmsl.EventValidationError); ok && ve.Persistable && ev == nil {
+				// "persistable" means the caller may keep the event: EventJSONs.UntrustedEvents does
+				return args, B("PANIC: (would-be) NewEventFromUntrustedJSON returned a persistable error with a nil event: " + err.Error())
+			}
 			if ev != nil {
 				if _, persistable := err.(gmsl.EventValidationError); err == nil || persistable {
 					c18ExerciseEvent(ev, sk)
 				}
 			}
 		}
+		for _, e := range (gmsl.EventJSONs{args[1], c18Rehash(args[1])}).UntrustedEvents(verImpl.Version()) {
+			if e == nil {
+				return args, B("PANIC: (would-be) EventJSONs.UntrustedEvents returned a nil PDU")
+			}
+		}
+		_ = (gmsl.EventJSONs{args[1]}).TrustedEvents(verImpl.Version(), false)
 		_, _ = verImpl.RedactEventJSON(args[1])
 		_ = verImpl.CheckCanonicalJSON(args[1])
 		var pl gmsl.PowerLevelContent
@@ -401,6 +413,11 @@ func init() {
 		_, _ = gmsl.ResolveConflictsNew(ver, [][]gmsl.PDU{st[:half], st[half:]}, st, c18UserIDForSender, notRejected)
 		_, _ = gmsl.ResolveConflictsNew(ver, [][]gmsl.PDU{st, st[half:]}, st[:half], c18UserIDForSender, notRejected)
 		_ = gmsl.ResolveStateConflicts(st, st, c18UserIDForSender)
+		// the AUTH events of state resolution are whatever events the conflicted ones name in their
+		// auth_events - a remote server chooses them, so they may be any accepted event
+		_, _ = gmsl.ResolveConflicts(ver, st, evs, c18UserIDForSender, notRejected)
+		_, _ = gmsl.ResolveConflictsNew(ver, [][]gmsl.PDU{st[:half], st[half:]}, evs, c18UserIDForSender, notRejected)
+		_ = gmsl.ResolveStateConflicts(evs, evs, c18UserIDForSender)
 		_ = gmsl.ReverseTopologicalOrdering(evs, gmsl.TopologicalOrderByAuthEvents)
 		_ = gmsl.ReverseTopologicalOrdering(evs, gmsl.TopologicalOrderByPrevEvents)
 		_ = gmsl.LineariseStateResponse(ver, c18StateResp{raws, raws})
@@ -475,6 +492,134 @@ func init() {
 		_ = hx.UnmarshalJSON(b)
 		if _, err := gmsl.NewEventFromHeaderedJSON(b, false); err == nil {
 		}
+		for _, v := range c18AllVersions() {
+			verImpl, err := gmsl.GetRoomVersion(v)
+			if err != nil {
+				continue
+			}
+			_, _ = verImpl.RedactEventJSON(b)
+			_ = verImpl.CheckCanonicalJSON(b)
+			var pl gmsl.PowerLevelContent
+			_ = verImpl.ParsePowerLevels(b, &pl)
+			_, _ = verImpl.RestrictedJoinServername(b)
+			if ev, err := verImpl.NewEventFromUntrustedJSON(b); err == nil && ev != nil {
+				_ = ev.EventID()
+			}
+			if ev, err := verImpl.NewEventFromTrustedJSON(b, false); err == nil && ev != nil {
+				_ = ev.Type()
+			}
+			if ev, err := verImpl.NewEventFromTrustedJSONWithEventID("$x:y", b, false); err == nil && ev != nil {
+				_ = ev.Type()
+			}
+			for _, e := range (gmsl.EventJSONs{b}).UntrustedEvents(v) {
+				if e == nil {
+					return args, B("PANIC: (would-be) EventJSONs.UntrustedEvents returned a nil PDU")
+				}
+			}
+			_ = (gmsl.EventJSONs{b}).TrustedEvents(v, false)
+		}
+		return args, np
+	})
+	// [public key bytes]: keys of any length against a WELL-FORMED (64-byte) signature: the paths
+	// that hand a remote-supplied key to ed25519.Verify (VerifyJSON directly, the verify_keys and
+	// old_verify_keys of a key response)
+	RegisterImpl("C18.verifykey", func(args [][]byte) ([][]byte, []byte) {
+		key := args[0]
+		sig := strings.Repeat("A", 86)
+		msg := []byte(`{"a":1,"signatures":{"srv":{"ed25519:1":"` + sig + `"}}}`)
+		_ = gmsl.VerifyJSON("srv", "ed25519:1", ed25519.PublicKey(key), msg)
+		k64 := spec.Base64Bytes(key).Encode()
+		for _, resp := range []string{
+			`{"server_name":"srv","valid_until_ts":9999999999999,"verify_keys":{"ed25519:1":{"key":"` + k64 + `"}},"old_verify_keys":{},"signatures":{"srv":{"ed25519:1":"` + sig + `"}}}`,
+			`{"server_name":"srv","valid_until_ts":9999999999999,"verify_keys":{"ed25519:2":{"key":"` + strings.Repeat("A", 43) + `"}},"old_verify_keys":{"ed25519:1":{"key":"` + k64 + `","expired_ts":1}},"signatures":{"srv":{"ed25519:1":"` + sig + `","ed25519:2":"` + sig + `"}}}`,
+		} {
+			var keys gmsl.ServerKeys
+			if json.Unmarshal([]byte(resp), &keys) == nil {
+				_, _ = gmsl.CheckKeys("srv", time.Now(), keys)
+			}
+		}
+		return args, np
+	})
+	// [version; event json...]: events LINKED through their auth_events / prev_events: event i names
+	// the IDs of the accepted events before it, so that auth chains, the auth-event maps of state
+	// resolution and the orderings are walked with hostile events in every position
+	RegisterImpl("C18.linked", func(args [][]byte) ([][]byte, []byte) {
+		ver := gmsl.RoomVersion(args[0])
+		verImpl, err := gmsl.GetRoomVersion(ver)
+		if err != nil {
+			return args, np
+		}
+		var evs []gmsl.PDU
+		var raws gmsl.EventJSONs
+		for _, j := range args[1:] {
+			var m map[string]interface{}
+			if json.Unmarshal(j, &m) != nil {
+				continue
+			}
+			var refs []interface{}
+			for _, e := range evs {
+				if verImpl.EventFormat() == gmsl.EventFormatV1 {
+					refs = append(refs, []interface{}{e.EventID(), map[string]string{"sha256": "AAAA"}})
+				} else {
+					refs = append(refs, e.EventID())
+				}
+			}
+			if refs == nil {
+				refs = []interface{}{}
+			}
+			m["auth_events"] = refs
+			m["prev_events"] = refs
+			if verImpl.EventFormat() == gmsl.EventFormatV1 {
+				m["event_id"] = fmt.Sprintf("$e%d:example.org", len(evs))
+			}
+			b, err := json.Marshal(m)
+			if err != nil {
+				continue
+			}
+			b = c18Rehash(b)
+			if ev, err := verImpl.NewEventFromUntrustedJSON(b); err == nil && ev != nil {
+				evs = append(evs, ev)
+				raws = append(raws, spec.RawJSON(b))
+			}
+		}
+		if len(evs) < 2 {
+			return args, np
+		}
+		var st []gmsl.PDU
+		for _, e := range evs {
+			if e.StateKey() != nil {
+				st = append(st, e)
+			}
+		}
+		notRejected := func(string) bool { return false }
+		half := len(st) / 2
+		_, _ = gmsl.ResolveConflicts(ver, st, evs, c18UserIDForSender, notRejected)
+		_, _ = gmsl.ResolveConflictsNew(ver, [][]gmsl.PDU{st[:half], st[half:]}, evs, c18UserIDForSender, notRejected)
+		_, _ = gmsl.ResolveConflictsNew(ver, [][]gmsl.PDU{st, st[half:]}, evs, c18UserIDForSender, notRejected)
+		_ = gmsl.ResolveStateConflicts(evs, evs, c18UserIDForSender)
+		_ = gmsl.ResolveStateConflictsV2(st[half:], st[:half], evs, c18UserIDForSender, notRejected)
+		_ = gmsl.ReverseTopologicalOrdering(evs, gmsl.TopologicalOrderByAuthEvents)
+		_ = gmsl.ReverseTopologicalOrdering(evs, gmsl.TopologicalOrderByPrevEvents)
+		provider := func(rv gmsl.RoomVersion, ids []string) ([]gmsl.PDU, error) {
+			var out []gmsl.PDU
+			for _, e := range evs {
+				for _, id := range ids {
+					if e.EventID() == id {
+						out = append(out, e)
+					}
+				}
+			}
+			return out, nil
+		}
+		for _, e := range evs {
+			_ = gmsl.VerifyEventAuthChain(context.Background(), e, provider, c18UserIDForSender)
+			if ae, err := gmsl.NewAuthEvents(evs); err == nil {
+				_ = gmsl.Allowed(e, ae, c18UserIDForSender)
+			}
+		}
+		_, _, _ = gmsl.CheckStateResponse(context.Background(), c18StateResp{raws, raws[len(raws)/2:]}, ver, c18Verifier{true}, provider, c18UserIDForSender)
+		_, _ = gmsl.CheckSendJoinResponse(context.Background(), ver, c18StateResp{raws, raws}, c18Verifier{true}, evs[len(evs)-1], provider, c18UserIDForSender)
+		_ = gmsl.LineariseStateResponse(ver, c18StateResp{raws, raws})
 		return args, np
 	})
 	// [version; event json]: events whose top-level member names differ from the struct field
@@ -770,6 +915,10 @@ func genC18(c *Ctx) {
 			c.Count("cycle")
 		}
 	}
+	for _, n := range []int{0, 1, 16, 31, 32, 33, 48, 63, 64, 65, 100} {
+		c.Run("C18.verifykey", [][]byte{bytes.Repeat([]byte{7}, n)}, "C18.nopanic", "", fmt.Sprintf("public key of %d bytes", n))
+		c.Count("verifykey")
+	}
 	// 1. hostile single events, every version
 	n := c.Scale(120, 1500)
 	for _, v := range vers {
@@ -788,6 +937,31 @@ func genC18(c *Ctx) {
 			}
 			c.Run("C18.group", args, "C18.nopanic", "", "hostile group")
 			c.Count("group/" + string(v))
+		}
+	}
+	// 2b. linked groups: mostly well-formed events (so that they are accepted and name each other),
+	// control types with and without a state key
+	n = c.Scale(25, 300)
+	for _, v := range vers {
+		for i := 0; i < n; i++ {
+			args := [][]byte{B(string(v))}
+			for k := 3 + r.Intn(6); k > 0; k-- {
+				typ := c18Types[r.Intn(9)]
+				ev := map[string]interface{}{"type": typ, "room_id": c18RoomIDs[0], "sender": c18Users[0], "content": c18HostileContent(r, typ),
+					"origin_server_ts": 1700000000000 + r.Intn(5), "depth": 5, "hashes": map[string]interface{}{"sha256": "AAAA"},
+					"signatures": map[string]interface{}{"example.org": map[string]interface{}{"ed25519:1": strings.Repeat("A", 86)}}}
+				switch r.Intn(4) {
+				case 0: // not a state event
+				case 1:
+					ev["state_key"] = c18Users[0]
+				default:
+					ev["state_key"] = ""
+				}
+				b, _ := json.Marshal(ev)
+				args = append(args, b)
+			}
+			c.Run("C18.linked", args, "C18.nopanic", "", "linked group")
+			c.Count("linked/" + string(v))
 		}
 	}
 	// every \uXXXX escape of one UTF-16 code unit class, alone and in pairs, as a JSON string and as a key
@@ -875,7 +1049,9 @@ func genC18(c *Ctx) {
 		`{"server_name":"srv","valid_until_ts":9999999999999,"verify_keys":{"ed25519":{"key":"AAAA"},"":{"key":"AAAA"},"curve25519":{"key":"AAAA"},":":{"key":""},"ed25519:":{"key":null}},"old_verify_keys":{"x":{"key":"AA","expired_ts":1},"":{}},"signatures":{"srv":{"ed25519":"AAAA","":"AAAA"}}}`,
 		`X-Matrix origin="a.example",key="ed25519:1",sig="AAAA",destination="b.example"`, `@alice:example.org`, `!room:example.org`, `example.org:8448`, `[::1]:8448`,
 		`{"pdus":[{"type":"m.room.message"}],"edus":[],"origin":"x","origin_server_ts":1}`, `{"state":[],"auth_chain":[],"event":{},"origin":"x","members_omitted":true,"servers_in_room":["x"]}`,
-		`[200,{"event":{}}]`, `"-0"`, `-`, `"\u`, `"\ud800`, `"\ud800\u`, `"\`, `-0`, `{"a":-0.5}`, `{"_room_version":"10","_event_id":"$x","type":"m.room.message"}`, `MDAxY2xvY2F0aW9u`, `AAAA`}
+		`[200,{"event":{}}]`, `"-0"`, `-`, `"\u`, `"\ud800`, `"\ud800\u`, `"\`, `-0`, `{"a":-0.5}`, `{"_room_version":"10","_event_id":"$x","type":"m.room.message"}`, `MDAxY2xvY2F0aW9u`, `AAAA`,
+		`null`, `[]`, `5`, `"x"`, `{}`, `{"content":null}`, `{"content":{},"type":null}`, `{"room_id":"!r:x","type":"m.room.member","content":{"membership":null}}`,
+		`{"auth_events":[],"content":{},"depth":1,"hashes":{"sha256":"AAAA"},"origin_server_ts":1,"prev_events":[],"room_id":"!` + strings.Repeat("ä", 130) + `:x","sender":"@a:x","type":"m.x"}`}
 	n = c.Scale(1500, 30000)
 	for i := 0; i < n; i++ {
 		b := []byte(seeds[r.Intn(len(seeds))])
